@@ -356,7 +356,7 @@ def cert_option(rng, critical):
         # unparsed option, so the certificate blob - and with it every fingerprint - must stay what is on the wire
         return sk.SshCertExtensionUnparsed('source-address', rng.choice([
             b'192.168.1.10/24', b'10.0.0.1/8,192.168.0.0/16', b'2001:db8::1/32', b'192.168.1.0/24,2001:db8::dead:beef/64',
-            b'not-an-address', b'']))
+            b'not-an-address', b'192.168.1.1/33']))
     if critical:
         return sk.SshCertExtensionForceCommand(rng.choice(['ls', '/bin/true', '', 'echo "a b"']))
     return rng.choice([sk.SshCertExtensionNoPrecenseRequired, sk.SshCertExtensionPermitX11Forwarding,
